@@ -32,6 +32,29 @@ def run(prop, leg_no, leg, wd, binary):
             p.kill()
             rc = -9
     results, inconclusive = [], []
+    rerun_ok = 0
+    if rc == 1 and not glob.glob(os.path.join(od, "violation_%s_*.json" % prop)):
+        # A worker was lost without the property reporting anything. Go's fuzzer kills a worker
+        # whose single input runs longer than 10 s (a loaded machine and a large generated case are
+        # enough). Re-run the saved input through the property, outside the fuzzer: only if it
+        # fails there as well is there anything to report.
+        try:
+            txt = open(lp, "rb").read().decode("utf-8", "replace")
+        except Exception:
+            txt = ""
+        ids = [ln.split("testdata/fuzz/")[1].strip() for ln in txt.splitlines() if "Failing input written to testdata/fuzz/" in ln]
+        if ids:
+            with open(lp, "a") as lf:
+                p2 = subprocess.Popen([binary, "-test.run", "^%s$" % ids[0], "-test.timeout", "1200s"], cwd=od, env=env,
+                                      stdout=lf, stderr=subprocess.STDOUT)
+                try:
+                    rc2 = p2.wait(timeout=1300)
+                except subprocess.TimeoutExpired:
+                    p2.kill()
+                    rc2 = -9
+            if rc2 == 0:
+                rerun_ok = 1
+                rc = 0
     datas = []
     for f in sorted(glob.glob(os.path.join(od, "shard_%s_*.json" % prop))):
         try:
@@ -61,7 +84,8 @@ def run(prop, leg_no, leg, wd, binary):
                         "log_tail": "", "current_case": None})
     r = {"shard": 4999, "rc": rc if viols or rc in (0, 1) else rc, "timed_out": rc == -9, "outdir": od, "violations": viols,
          "data": {"evaluations": 0, "nontrivial_hashes": [], "classes": {}, "counters": {"native_fuzz_execs_" + leg["fuzz"]: execs,
-                  "native_fuzz_seconds_" + leg["fuzz"]: int(time.time() - t0)}, "samples": [], "known_findings": {}, "complete": True},
+                  "native_fuzz_seconds_" + leg["fuzz"]: int(time.time() - t0),
+                  "native_fuzz_worker_lost_input_passed_on_rerun_" + leg["fuzz"]: rerun_ok}, "samples": [], "known_findings": {}, "complete": True},
          "log_tail": tail, "current_case": None}
     if rc == 1 and not viols:
         # the fuzzer reported a failing input but the property wrote no violation file: engine crash inside a worker
